@@ -182,6 +182,12 @@ func AllocGuard(limit int, f func()) {
 // ClockNs is the engine's virtual clock (the wall clock natively).
 func ClockNs() int64 { return time.Now().UnixNano() }
 
+// InRange asserts lo <= x <= hi (assertion id) and hands the engine's interval analysis that range (intrinsic).
+func InRange(x, lo, hi int64, id string) int64 {
+	Assert(x >= lo && x <= hi, id)
+	return x
+}
+
 // Panics runs f and reports whether it panicked (ordinary Go; interpreted by the engine as is).
 func Panics(f func()) (p bool) {
 	defer func() {
